@@ -509,7 +509,7 @@ def tie(ctx):
     for v in violations:
         firstv.setdefault(v["signature"], v)
     return {"families": fam, "violations": list(firstv.values()), "evaluations": stats["stage_pairs"] + stats["pipeline_pairs"] + stats["vcf_pairs"], "distinct_nontrivial": len(distinct),
-            "rule": "pairs (hg19, hg38) of the same database - shipped (same strand, shifted coordinates), toy and generated (opposite strands, incl. a variant on the last RefSeq base) - with RefSeq-level evidence transported to both builds (planted 1-3 alleles, noise, spurious variants) through the real major and minor stages; plus alignments simulated against each build through the full pipeline; distinct by hash",
+            "rule": "pairs (hg19, hg38) of the same database - shipped (same strand, shifted coordinates), toy and generated (opposite strands, incl. a variant on the last RefSeq base) - with RefSeq-level evidence transported to both builds (planted 1-3 alleles, noise, spurious variants) through the real major and minor stages; plus alignments simulated against each build through the full pipeline, VCF pairs (records with REF/ALT exchanged in one build) and the region map per RefSeq base of generated databases; distinct by hash",
             "samples": samples, "stats": dict(stats)}
 
 
